@@ -1219,7 +1219,9 @@ class Table:
                     data_file_manager.open_parquet_source(data_file.file_path)
                 )
 
+            rows_read = 0
             for batch in pf.iter_batches(batch_size=batch_size, columns=read_columns):
+                rows_read += batch.num_rows
                 # Convert batch to table for filtering
                 table = pa.Table.from_batches([batch])
 
@@ -1231,6 +1233,16 @@ class Table:
 
                 if table.num_rows > 0:
                     yield table.to_pylist()
+
+            # A damaged footer can make iter_batches() stop early without an
+            # error (pq.read_table rejects the same bytes). Fewer rows than the
+            # file itself declares is a read failure, not a shorter file -
+            # ending here silently would hand out partial results.
+            if rows_read != pf.metadata.num_rows:
+                raise ValueError(
+                    f"Data file {data_file.file_path} declares {pf.metadata.num_rows} rows "
+                    f"but only {rows_read} could be read - the file is damaged"
+                )
 
     def iter_records(
         self,
